@@ -74,7 +74,8 @@ def gen(rng, tier, index):
     sessions = []
     for nid in nodes:
         sessions.append({"node": nid, "image": rng.randrange(len(images)), "order": rng.choice(["desc", "desc", "asc", "random"]),
-                         "repeat": rng.choice([0.0, 0.0, 0.1, 0.3]), "timeout": rng.choice([0.2, 0.5, 1.0]), "start": rng.choice([0.0, 0.01, 0.3])})
+                         "repeat": rng.choice([0.0, 0.0, 0.1, 0.3]), "timeout": rng.choice([0.2, 0.5, 1.0]), "start": rng.choice([0.0, 0.01, 0.3]),
+                         "sleepy": rng.random() < 0.3})
     rates = rng.choice([{"drop": 0.0, "dup": 0.0, "delay": 0.0}, {"drop": 0.03, "dup": 0.03, "delay": 0.1}, {"drop": 0.1, "dup": 0.1, "delay": 0.3},
                         {"drop": 0.0, "dup": 0.2, "delay": 0.5}])
     return {"cfg": {"flavour": flavour, "version": rng.choice(["1.4", "2.0", "2.2"]), "images": images, "rates": rates,
@@ -270,6 +271,14 @@ def run(case):
             world.start()
             nodes = [s["node"] for s in case["ops"]]
             world.feed("".join(f"{n};255;0;0;17;2.0\n" for n in nodes))
+            if cfg["version"] in ("2.0", "2.1", "2.2"):
+                # some of the updating nodes are smart-sleep nodes (firmware stream responses are the stated
+                # exception to the hold-back rule, so their transfer must work all the same)
+                wake = "3;0;32;5" if cfg["version"] == "2.2" else "3;0;22;5"
+                for spec in case["ops"]:
+                    if spec.get("sleepy"):
+                        world.feed(f"{spec['node']};1;0;0;6;t\n{spec['node']};255;{wake}\n")
+                        probes["sleepy_peers"] = probes.get("sleepy_peers", 0) + 1
             images = []
             loaded = {}
             scheduled = {}  # node -> key of the last update call that really scheduled it
